@@ -13,6 +13,13 @@ ASSUME = ("Trusted base: g++ 12.2 / clang++ 14 (front end = interpreter of the t
           "vf/model + harness/*.hh, which contains no Au code. ")
 
 CHECKS = {
+    "C02": dict(level="model_checking", technique="explicit-state BFS over unit expressions; every model transition replayed through the C++ front end on the real headers",
+                text="Breadth-first search from atomic units through products, quotients, powers, roots, scalings and prefixes to a depth bound, "
+                     "de-duplicated by the canonical state of an independent exact model (atom monomial, scale magnitude as prime-exponent vector). "
+                     "For every transition the implementation's Dim/Mag packs are read out and compared with the model, equal monomials must be the "
+                     "identical type, equal (dim,mag) must be quantity-equivalent with ratio ONE and different magnitudes must not be. All traces are "
+                     "validated against the implementation because the implementation is the transition function.",
+                ref="DESIGN.md §6 C02"),
     "C03": dict(level="exploration", technique="bounded exhaustive value enumeration on the real headers vs exact 128-bit oracle, UBSan observer",
                 text="Every (integral rep, factor) instance of a structured grid is swept: all values for 8/16-bit reps, "
                      "breakpoint-complete windows for 32/64-bit, all 2^32 values for a branch-covering subset in the thorough tier. "
